@@ -283,6 +283,9 @@ FS_TREES = [
     [('f', 'a'), ('f', 'b.txt'), ('f', '.h'), ('d', 'd'), ('f', 'd/a'), ('f', 'd/c.txt'), ('d', 'd/e'), ('f', 'd/e/a'), ('l', 'ld', 'd'),
      ('l', 'lf', 'a'), ('l', 'dang', 'nowhere'), ('d', '.hd'), ('f', '.hd/a')],
     [('d', 'A'), ('f', 'A/b'), ('f', 'A/B'), ('d', 'a'), ('f', 'a/x1'), ('f', 'x1'), ('d', 'a/a'), ('f', 'a/a/a'), ('f', '[a]'), ('f', 'a*')],
+    # names with a backslash (at the end, before a dot) and with a newline: ordinary characters on POSIX
+    [('f', 'x\\'), ('f', 'a'), ('d', 'd'), ('f', 'd/x\\'), ('d', 'd\\'), ('f', 'd\\/a'), ('d', 'a\\.'), ('f', 'a\\./x'), ('f', 'a\\b'), ('d', 'x\n'),
+     ('f', 'x\n/a'), ('f', 'a\n')],
 ]
 
 
